@@ -343,6 +343,21 @@ Definition covered (fs : node) (ds : list bytes) (q : list bytes) : bool :=
 Definition stale_scope (fs : node) (ds : list bytes) : Prop :=
   forall d, In d ds -> comps d <> [] /\ plain_comps (comps d) = true /\ no_link_on_the_way fs (comps d) = true.
 
+(* ---------- notions for the statements about ANY path (links on the way, "." and "..") ---------- *)
+
+(* fs' is fs with some entries deleted: whatever exists in fs' exists in fs and lstat reports the same of it *)
+Definition sub (fs' fs : node) : Prop :=
+  forall q x', get fs' q = Some x' -> exists x, get fs q = Some x /\ shallow x = shallow x'.
+
+(* everything that differs between fs' and fs lies at or beneath the canonical path L *)
+Definition below (L : list bytes) (fs' fs : node) : Prop :=
+  sub fs' fs /\
+  forall q, comp_prefix L q = false -> option_map shallow (get fs' q) = option_map shallow (get fs q).
+
+(* the canonical path L lies at or beneath one of the roots (compared by whole components) *)
+Definition inside (roots : list bytes) (L : list bytes) : bool :=
+  existsb (fun r => comp_prefix (comps r) L) roots.
+
 Definition succeeded (r : result) : bool := match r with None => true | Some _ => false end.
 
 (* all canonical paths of a tree, pre-order, with what lstat reports (the dump of the harness) *)
